@@ -27,6 +27,10 @@ var unmarshalMap sync.Map // in-memory cache of the mapping of Go types to Messa
 // MsgType accepts a protobuf message and returns the corresponding MessageType value.
 func MsgType(msg interface{}) MessageType {
 	typ := reflect.TypeOf(msg)
+	if typ == nil {
+		// untyped nil is not a message of any runtime
+		return MessageTypeUnknown
+	}
 	val, found := unmarshalMap.Load(typ)
 	if found {
 		return val.(MessageType)
@@ -51,6 +55,8 @@ func deduceMsgType(msg interface{}, typ reflect.Type) MessageType {
 		if gogo.MessageName(gogoMsg) != "" {
 			return MessageTypeGogo
 		}
+		return MessageTypeGoogleV1
 	}
-	return MessageTypeGoogleV1
+	// a pointer to something that is not a Protobuf message at all
+	return MessageTypeUnknown
 }
